@@ -120,18 +120,25 @@ theorem C32_atom_keeps_text (cfg : Cfg) (hr : cfg.recheck = true) (s : State)
   · rw [r.1]
   · exact r.2.2
 
-/-- A completed call returns an inlined atom exactly for inlinable texts, a static atom exactly
-for the other static texts, and otherwise an offset of the shared block holding the text. -/
+/-- **Which atom a call returns**: an inlined atom exactly for the inlinable texts (1..6 bytes
+without NUL; these never touch the table), the static atom exactly for the other texts of the
+build-time table, and otherwise an offset of the shared block that holds the text. -/
 theorem C32_result_kind (cfg : Cfg) (hr : cfg.recheck = true) (s : State) (h : Reachable cfg s)
     (t : Tid) (x : Text) (a : Atom) (ha : (x, a) ∈ (s.locals t).results) :
-    a = (if inlinable x then .inl x else if cfg.isStatic x then .stat x else a) ∧
-    atomText s.sh a = some x := by
-  have r := ((reachable_inv hr h).l t).res x a ha
-  refine ⟨?_, by simpa [run] using C32_atom_keeps_text cfg hr s h t x a ha []⟩
+    (inlinable x = true → a = .inl x) ∧
+    (inlinable x = false → cfg.isStatic x = true → a = .stat x) ∧
+    (inlinable x = false → cfg.isStatic x = false →
+      ∃ o, a = .dyn o ∧ s.sh.blk.textAt o = some x ∧ o < s.sh.blk.used) := by
+  have i := reachable_inv hr h
+  have r := (i.l t).res x a ha
   cases a <;> simp only [ResOK] at r
-  · simp [r.1, r.2]
-  · simp [r.1, r.2.1, r.2.2]
-  · simp [r.1, r.2.1]
+  · refine ⟨fun _ => by rw [r.1], fun h1 => ?_, fun h1 => ?_⟩ <;> (rw [r.2] at h1; cases h1)
+  · refine ⟨fun h1 => ?_, fun _ _ => by rw [r.1], fun _ h2 => ?_⟩
+    · rw [r.2.1] at h1; cases h1
+    · rw [r.2.2] at h2; cases h2
+  · refine ⟨fun h1 => ?_, fun _ h2 => ?_, fun _ _ => ⟨_, rfl, r.2.2, i.g.cells_lt _ _ r.2.2⟩⟩
+    · rw [r.1] at h1; cases h1
+    · rw [r.2.1] at h2; cases h2
 
 /-! ## Sensitivity: the protocol WITHOUT the re-check under the lock -/
 
